@@ -101,9 +101,16 @@ Expect(tok, xs) ==
                 DDiv(xs[1].d, ProdDim([i \in 1..(Len(xs) - 1) |-> [d |-> DPow(xs[i + 1].d, R(tok.cnt[i]))]])))
     [] OTHER -> Refuse
 
+\* a node that returns a value must have collected every one of its operands (tok.ar = number of operands of the
+\* node, tok.n = operand events recorded before it); only a refusal may interrupt the collection
+ArityOK(tok) == tok.c = "err" \/ tok.op = "leaf" \/ tok.n = tok.ar
+MinNeed(op) == IF op \in {"abs", "deriv_e", "powr"} THEN 1 ELSE 0
+SafeExpect(tok, xs) == IF Len(xs) < MinNeed(tok.op) THEN Refuse ELSE Expect(tok, xs)
+
 \* the recorded outcome is one of the allowed ones
 NodeOK(tok, xs) ==
-  LET ex == Expect(tok, xs) IN
+  ArityOK(tok) /\
+  LET ex == SafeExpect(tok, xs) IN
   IF tok.c = "err" THEN ex.err
   ELSE /\ ~ex.err
        /\ tok.c \in ex.cls
